@@ -6,3 +6,4 @@ import Gomjml.Props.C18
 #print axioms Gomjml.Props.C18.C18_cdata_roundtrip
 #print axioms Gomjml.Props.C18.C18_strip_whitespace
 #print axioms Gomjml.Props.C18.C18_xml_escapes_left_alone
+#print axioms Gomjml.Props.C18.C18_prolog_ignored
